@@ -114,14 +114,25 @@ func discharge(q *Query, prelude string, budget int, thorough bool) *Outcome {
 		}(n)
 	}
 	go func() { wg.Wait(); close(ch) }()
+	graceStarted := false
 	for r := range ch {
 		if r.Verdict == "cancelled" {
 			continue
 		}
 		oc.Results = append(oc.Results, r)
 		oc.SolverS += r.Secs
-		if !thorough && (r.Verdict == "unsat" || r.Verdict == "sat") {
-			cancel()
+		if r.Verdict == "unsat" || r.Verdict == "sat" {
+			if !thorough {
+				cancel()
+			} else if !graceStarted {
+				// thorough: the other solvers get a few more seconds to give a second opinion
+				// (a disagreement makes the obligation undecided), then they are stopped
+				graceStarted = true
+				go func() {
+					time.Sleep(5 * time.Second)
+					cancel()
+				}()
+			}
 		}
 	}
 	oc.finish()
